@@ -38,10 +38,13 @@ def expand(r):
     if k == "tag":
         kids = []
         for c in r["c"]:
+            if r.get("how") == "displayed" and (c["k"] == "obj" or (c["k"] == "inst" and c["has"] == "repr")):
+                # a displayed value that is only self-rendering is stored as its markup (C17)
+                c = {"k": "html", "s": c["s"] if c["k"] == "obj" else "<i>dyn</i>"}
             kids.extend(expand(c))
         r2 = dict(r)
         r2["c"] = kids
-        r2["how"] = "used_as_context" if r.get("how") == "used_as_context" else "ctor"
+        r2["how"] = "used_as_context" if r.get("how") in ("used_as_context", "displayed") else "ctor"
         return [r2]
     if k == "none":
         return []
@@ -117,6 +120,19 @@ def check_case(ctx, r):
         return False
     if str(live) != a["html"]:
         ctx.violation("str-differs-from-render", "str() differs from render()['html']", wit)
+        return False
+    # the Quarto rendering path: str()/_repr_html_() with dependencies serialised after the markup
+    import htmltools as _h
+    old_mode = _h.html_dependency_render_mode
+    _h.html_dependency_render_mode = "json"
+    try:
+        ja, jb, jr = str(live), str(live_exp), live._repr_html_()
+    finally:
+        _h.html_dependency_render_mode = old_mode
+    ctx.count("oracle.json_mode_expansion")
+    if ja != jb or jr != ja:
+        ctx.violation("expansion-json-mode-differs", "in the JSON dependency render mode str()/_repr_html_() of the tree differ from those of the expanded tree",
+                      dict(wit, got=ja[-800:], want=jb[-800:]))
         return False
     # HTMLDocument in its three root cases: fragment, lone <body>, lone <html> (with and without <head>)
     def roots(x):
@@ -232,7 +248,7 @@ def rand_node(rng, ids, depth, kind=None):
     if kind == "tag":
         n = rng.choice([0, 1, 2, 3, 4])
         return gen.TAG(rng.choice(lg.BLOCKS + lg.INLINES + ["br", "hr", "img", "script", "style", "head", "body"]), *[rand_node(rng, ids, depth - 1) for _ in range(n)],
-                       ws=rng.random() < 0.5, how=rng.choice(gen.HOWS), via_fn=False, **({"subclass": True} if rng.random() < 0.06 else {}))
+                       ws=rng.random() < 0.5, how=rng.choice(gen.HOWS + ["displayed", "displayed"]), via_fn=False, **({"subclass": True} if rng.random() < 0.06 else {}))
     if kind == "empty":
         return rng.choice([{"k": "text", "s": ""}, {"k": "html", "s": ""}])
     if kind == "text":
